@@ -1,6 +1,8 @@
 (* C15 — reflink modes keep their contract. *)
 From XcpModel Require Import Base Extents Sparse Blocks CopyLoop FileCopy.
 From XcpProofs Require Import ExtentsProofs SparseProofs BlocksProofs CopyLoopProofs FileCopyProofs.
+From XcpModel Require Import Extracted.
+From XcpProofs Require Import ExtractedOk.
 
 (* never: no clone request, in either driver, whatever the kernel would answer *)
 Theorem C15_never_no_clone : forall fuel bs len sparse clone sd sh mx ans,
@@ -67,6 +69,12 @@ Theorem C15_clone_unsupported_errnos : forall e,
   classify_clone e = ClUnsup <-> e = EOPNOTSUPP \/ e = EINVAL \/ e = EXDEV \/ e = ETXTBSY.
 Proof. exact classify_clone_unsup. Qed.
 
+(* ---- tie to the current source (translator): the model's definitions used above are
+   EQUAL to what /verif/xlate extracts from the repository on this run ---- *)
+Theorem C15_src_reflink_unsupported_errnos : forall e, e <> 0%N ->
+  existsb (N.eqb e) x_reflink_unsupported_errnos = match classify_clone e with ClUnsup => true | _ => false end.
+Proof. exact x_reflink_unsupported_ok. Qed.
+
 Print Assumptions C15_never_no_clone.
 Print Assumptions C15_always_ok_iff_cloned.
 Print Assumptions C15_always_unsupported_fails.
@@ -74,3 +82,4 @@ Print Assumptions C15_auto_clone_first.
 Print Assumptions C15_auto_fallback_is_plain_copy.
 Print Assumptions C15_hard_error_fatal.
 Print Assumptions C15_clone_unsupported_errnos.
+Print Assumptions C15_src_reflink_unsupported_errnos.
